@@ -87,7 +87,7 @@ CHECKS = {
   "note": "Trusts Verilator's translation and HexRTL's reading of processor.sv (cross-checked: every recorded clock conforms to HexRTL). "
           "System calls in whole runs are serviced by the harness shim."},
  "C11": {"level": "exploration", "design_ref": "DESIGN.md 2.5, 5 (C11)",
-  "technique": "TLC validation of observation histories against Determinism.tla (key = source text)",
+  "technique": "TLC validation of observation histories against Determinism.tla (key = source text); the function itself as a specification (XBinary / AsmBinary: tokens to file bytes, evaluated by TLC) compared byte for byte with the files the tools write",
   "text": "Sources are compiled/assembled in one process in several orders with dirtied heaps under MALLOC_PERTURB_, and through the "
           "executables under environment padding / ASLR toggling / malloc tunables / a digit-grouping locale; any two observations of one source must be byte-identical.",
   "note": "Exploration: only the configurations tried. Stack-content dependence is provoked only by preceding compilations in the same process."},
